@@ -6,9 +6,10 @@ import ObiVerif.Model.PEAnnot
 namespace ObiVerif.PEAlign
 open ObiVerif.Align
 
-/-- `qM`, `qm` after a column: updated only when the two qualities differ -/
-def qStep (st : UInt8 × UInt8) (qA qB : UInt8) : UInt8 × UInt8 :=
-  (if qA > qB then qA else if qB > qA then qB else st.1, if qA > qB then qB else if qB > qA then qA else st.2)
+/-- `qM`, `qm` after a column: (higher, lower) quality of THAT column, whatever they held before
+(`C08-consensus-quality-column`; the unpatched code updated them only when the two qualities differ) -/
+def qStep (_st : UInt8 × UInt8) (qA qB : UInt8) : UInt8 × UInt8 :=
+  (if qB > qA then qB else qA, if qB > qA then qA else qB)
 
 def cap90 (q : UInt8) : UInt8 := if q > 90 then 90 else q
 
@@ -99,28 +100,34 @@ theorem colQual_mismatch (adj : UInt8 → UInt8) (st : UInt8 × UInt8) (nA qA nB
     (qA > qB → colQual adj st nA qA nB qB = cap90 (qA - adj qB)) ∧
     (qB > qA → colQual adj st nA qA nB qB = cap90 (qB - adj qA)) := by
   refine ⟨fun h => ?_, fun h => ?_⟩
-  · simp [colQual, qStep, hA, hB, hn, h]
-  · have h' : ¬ qA > qB := by
+  · have h' : ¬ qB > qA := by
       simp only [gt_iff_lt, UInt8.lt_iff_toNat_lt] at h ⊢; omega
-    simp [colQual, qStep, hA, hB, hn, h, h']
+    simp [colQual, qStep, hA, hB, hn, h']
+  · simp [colQual, qStep, hA, hB, hn, h]
 
-/-- **mismatch, equal qualities** (the stale `qM`/`qm`): the value does not depend on the qualities of the
-column at all, only on `(qM, qm)` as left by the last earlier column with two different qualities -/
-theorem colQual_tie_stale (adj : UInt8 → UInt8) (st : UInt8 × UInt8) (nA nB q : UInt8) (hq : q > 0) (hn : nA ≠ nB) :
-    colQual adj st nA q nB q = cap90 (st.1 - adj st.2) := by
+/-- **mismatch, equal qualities**: `q − adj(q)` of the column's own quality, whatever `(qM, qm)` held before
+(on the unpatched code: `qM − adj(qm)` of an EARLIER column — witness in the harness corpus,
+`cons 61636774 28282828 61746774 28282828 2,2,-2,0`) -/
+theorem colQual_tie (adj : UInt8 → UInt8) (st : UInt8 × UInt8) (nA nB q : UInt8) (hq : q > 0) (hn : nA ≠ nB) :
+    colQual adj st nA q nB q = cap90 (q - adj q) := by
   have h : ¬ q > q := by simp only [gt_iff_lt, UInt8.lt_iff_toNat_lt]; omega
   simp [colQual, qStep, hq, hn, h]
 
-/-- the state is the (max, min) of the last column with two different qualities -/
+/-- the state after a column is the (max, min) of that column -/
 theorem qStep_rule (st : UInt8 × UInt8) (qA qB : UInt8) :
-    (qA > qB → qStep st qA qB = (qA, qB)) ∧ (qB > qA → qStep st qA qB = (qB, qA)) ∧ (qA = qB → qStep st qA qB = st) := by
-  refine ⟨fun h => by simp [qStep, h], fun h => ?_, fun h => ?_⟩
-  · have h' : ¬ qA > qB := by
+    (qA > qB → qStep st qA qB = (qA, qB)) ∧ (qB > qA → qStep st qA qB = (qB, qA)) ∧ (qA = qB → qStep st qA qB = (qA, qB)) := by
+  refine ⟨fun h => ?_, fun h => by simp [qStep, h], fun h => ?_⟩
+  · have h' : ¬ qB > qA := by
       simp only [gt_iff_lt, UInt8.lt_iff_toNat_lt] at h ⊢; omega
-    simp [qStep, h, h']
+    simp [qStep, h']
   · subst h
     have h' : ¬ qA > qA := by simp only [gt_iff_lt, UInt8.lt_iff_toNat_lt]; omega
     simp [qStep, h']
+
+/-- **the quality of a column does not depend on the other columns**: `colQual` ignores the `(qM, qm)` left by
+the previous columns -/
+theorem colQual_local (adj : UInt8 → UInt8) (st st' : UInt8 × UInt8) (nA qA nB qB : UInt8) :
+    colQual adj st nA qA nB qB = colQual adj st' nA qA nB qB := rfl
 
 /-! ## the table as data -/
 
